@@ -32,6 +32,23 @@ def is_abs_of(v, name):
     return False
 
 
+def path_sign_of(p, leaf):
+    """'neg' / 'nonneg' when the path's conditions fix the sign of `leaf` (compared with zero, or its sign bit tested)"""
+    for term, op, val, _ in p.conds:
+        truth = True if (op == '==' and val == 1) or (op == '!=' and set(val) == {0}) else False if (op == '==' and val == 0) else None
+        if truth is None or term[0] != 't':
+            continue
+        if term[1] == 'sign_neg' and arith.strip_casts(term[2][0]) == leaf:
+            return 'neg' if truth else 'nonneg'
+        if term[1] in ('Lt', 'lt', 'Ge', 'ge') and len(term[2]) == 2 and arith.strip_casts(term[2][0]) == leaf and arith.const_num(term[2][1]) == 0:
+            neg = truth if term[1] in ('Lt', 'lt') else not truth
+            return 'neg' if neg else 'nonneg'
+        if term[1] in ('Gt', 'gt', 'Le', 'le') and len(term[2]) == 2 and arith.strip_casts(term[2][1]) == leaf and arith.const_num(term[2][0]) == 0:
+            neg = truth if term[1] in ('Gt', 'gt') else not truth
+            return 'neg' if neg else 'nonneg'
+    return None
+
+
 def run(ctx, chk):
     fb = ctx.facts()
     chk.explanation = ('Linear form of the value assigned to the updater\'s bound on the synchronised path: coefficients of '
@@ -97,8 +114,15 @@ def run(ctx, chk):
             if nm in WANT and nm != 'current_correction':
                 got[nm] = got.get(nm, 0) + c
             elif nm == 'current_correction':
-                got[nm] = got.get(nm, 0) + c
-                abs_ok = False
+                # the signed offset itself: a magnitude all the same when this path is the branch of a sign test that
+                # makes it one (`if x < 0 { -x } else { x }`, `if x.is_sign_negative() { -x } else { x }`)
+                sign = path_sign_of(i['path'], leaf)
+                if sign is not None and ((sign == 'neg' and c < 0) or (sign == 'nonneg' and c > 0)):
+                    got[nm] = got.get(nm, 0) + abs(c)
+                    abs_ok = True if abs_ok is not False else False
+                else:
+                    got[nm] = got.get(nm, 0) + c
+                    abs_ok = False
             elif is_abs_of(leaf, 'current_correction'):
                 got['current_correction'] = got.get('current_correction', 0) + c
                 abs_ok = True
